@@ -278,6 +278,7 @@ InitM(code) ==
   [frames |-> <<Frame(code, 1)>>, stack |-> <<>>, haveWidth |-> FALSE, width |-> <<>>,
    nStems |-> 0, x |-> 0, y |-> 0, open |-> FALSE, cmds |-> <<>>,
    halt |-> "", why |-> "", maxStack |-> 0, maxDepth |-> 0,
+   fuzzy |-> FALSE,                \* some operand or coordinate is not exact in single precision
    vsindex |-> -1, seenBlend |-> FALSE,
    seac |-> 0, acc |-> <<>>]       \* seac: 0 none, 1 in base, 2 in accent; acc = <<adx, ady, code>>
 
@@ -285,7 +286,9 @@ Depth(m) == Len(m.frames) - 1
 Top(m)   == m.frames[Len(m.frames)]
 Fail(m, why) == [m EXCEPT !.halt = "err", !.why = why]
 Advance(m, k) == [m EXCEPT !.frames[Len(m.frames)].pc = @ + k]
-Emit(m, c) == IF CmdInDom(c) THEN [m EXCEPT !.cmds = Append(@, c)] ELSE Fail(m, "Range")
+CmdExact(c) == \A i \in 1 .. Len(c.p) : F32Exact(c.p[i])
+Emit(m, c) == IF CmdInDom(c) THEN [m EXCEPT !.cmds = Append(@, c), !.fuzzy = @ \/ ~CmdExact(c)]
+              ELSE Fail(m, "Range")
 CloseIfOpen(m) == IF m.open THEN [Emit(m, Cmd("Z", <<>>)) EXCEPT !.open = FALSE] ELSE m
 Clear(m) == [m EXCEPT !.stack = <<>>]
 
@@ -465,7 +468,7 @@ Step(fc, m) ==
        IF f.pc + k - 1 > Len(f.code) THEN Fail(m, "NumberTruncated")
        ELSE LET v == NumVal(f.code, f.pc) IN
             IF Len(m.stack) >= StackLimit(fc) THEN Fail(m, "StackOverflow")
-            ELSE [Advance(m, k) EXCEPT !.stack = Append(@, v),
+            ELSE [Advance(m, k) EXCEPT !.stack = Append(@, v), !.fuzzy = @ \/ ~F32Exact(v),
                                        !.maxStack = IF Len(m.stack) + 1 > @ THEN Len(m.stack) + 1 ELSE @]
   ELSE
   LET nm == OpName(b0) IN
@@ -496,8 +499,8 @@ Run(fc, m) == IF m.halt # "" THEN m ELSE Run(fc, Step(fc, m))
 Interp(fc, code) == Run(fc, InitM(code))
 
 \* Result as seen by a sink
-Outcome(m) == IF m.halt = "done" THEN [ok |-> TRUE, why |-> "", cmds |-> m.cmds]
-              ELSE [ok |-> FALSE, why |-> m.why, cmds |-> <<>>]
+Outcome(m) == IF m.halt = "done" THEN [ok |-> TRUE, why |-> "", cmds |-> m.cmds, rounded |-> FALSE]
+              ELSE [ok |-> FALSE, why |-> m.why, cmds |-> <<>>, rounded |-> FALSE]
 
 ---------------------------------------------------------------------------
 \* Design invariants of the machine (checked by MC_Type2 in every explored state)
